@@ -146,6 +146,7 @@ class PropCheck(object):
     rule = ''                 # how cases are generated and what makes one non-trivial
     assumptions = []
     props_module = None       # default AHP.Props.<id>
+    extra_modules = ()        # further theorem modules (e.g. 'AHP.Props.AttrStores') built, audited and counted with the property's own
     exhaustive_in = ()        # tiers in which the enumerated part is complete
 
     # ---- to implement -------------------------------------------------------------------
@@ -468,12 +469,17 @@ def run_check(check, tier, seed):
             print(out[-4000:])
             print('MACHINERY-ERROR: the driver does not build')
             return 2
-    ok, out = lake_build([props_module])
+    extra_mods = list(check.extra_modules)
+    ok, out = lake_build([props_module] + extra_mods)
     names = theorem_names(props_file)
+    mod_names = {props_module: list(names)}
+    for em in extra_mods:
+        mod_names[em] = theorem_names(os.path.join(LEAN_DIR, *em.split('.')) + '.lean')
+        names = names + mod_names[em]
     obligations = len(names)
     discharged = 0
     axioms = {}
-    checker_cmd = 'cd lean && lake build %s && lake env lean <audit: #print axioms of %d theorems>' % (props_module, len(names))
+    checker_cmd = 'cd lean && lake build %s && lake env lean <audit: #print axioms of %d theorems>' % (' '.join([props_module] + extra_mods), len(names))
     if not ok:
         failing = sorted(set(re.findall(r'error: (\S+\.lean:\d+:\d+)', out)))
         broken.append(('proof', 'lake build %s failed at %s\n%s' % (props_module, failing, out[-3000:])))
@@ -485,7 +491,9 @@ def run_check(check, tier, seed):
             print('MACHINERY-ERROR: forbidden constructs in the Lean sources')
             return 2
         try:
-            axioms = print_axioms(props_module, names)
+            axioms = {}
+            for mod, ns in mod_names.items():
+                axioms.update(print_axioms(mod, ns))
         except MachineryError as e:
             print(str(e))
             print('MACHINERY-ERROR: axiom audit')
@@ -496,8 +504,8 @@ def run_check(check, tier, seed):
             return 2
         discharged = len(names)
         if tier == 'thorough' and os.environ.get('AHP_NO_LEANCHECKER') != '1':
-            rc, lo = _run(['lake', 'env', 'leanchecker', props_module], cwd=LEAN_DIR, timeout=3600)
-            checker_cmd += ' && lake env leanchecker %s' % props_module
+            rc, lo = _run(['lake', 'env', 'leanchecker', props_module] + extra_mods, cwd=LEAN_DIR, timeout=3600)
+            checker_cmd += ' && lake env leanchecker %s' % ' '.join([props_module] + extra_mods)
             if rc != 0:
                 print(lo[-3000:])
                 print('MACHINERY-ERROR: leanchecker rejected %s' % props_module)
